@@ -622,3 +622,127 @@ Example C16_gen_nonvacuous2 :
   /\ LinalgMat.binomial_coefficient Qops 20 7 = GOk 77520%Q.
 Proof. repeat split; vm_compute; reflexivity. Qed.
 
+From NV Require Import Gen.PreludeExt Gen.HelpersB Proofs.GenTieKnotRemove.
+From NV Require Import Gen.HelpersB Proofs.GenTieElev.
+From NV Require Import Model.Geom2D Model.Voxel Gen.PreludeExt Gen.LinalgGeom Gen.Voxelize Proofs.GenTieGeom Proofs.GenTieVoxel
+  Proofs.GenTieHull.
+From NV Require Import Model.Hull Gen.Utilities Proofs.GenTieBBox.
+From NV Require Import Model.Fit Gen.Fitting Proofs.GenTieFit.
+From NV Require Import Model.Derivs Proofs.GenTieDerivCpts.
+From NV Require Import Proofs.GenTieArr4 Proofs.GenTieDerivSurf.
+From NV Require Import Model.KnotRefine Proofs.GenTieRefine.
+From NV Require Import Model.Eval Gen.Evaluators Proofs.GenTieEvalLib Proofs.GenTieEvalCurve Proofs.GenTieEvalSurf Proofs.GenTieEvalVol.
+From NV Require Import Model.Derivs Gen.HelpersC Proofs.GenTieBinom Proofs.GenTieBasisAll Proofs.GenTieEvalDerivCurve Proofs.GenTieEvalDerivCurve2.
+From NV Require Import Proofs.GenTieEvalDerivSurf Proofs.GenTieEvalDerivSurfRat Proofs.GenTieEvalDerivSurf2.
+From NV Require Import Model.Weights Gen.Compatibility Proofs.GenTieCompat.
+From NV Require Import Model.Layout Gen.Compatibility Proofs.GenTieFlip.
+From NV Require Import Model.Layout Model.Voxel Model.Hull Gen.OperationsInternal Proofs.GenTieFindCtrlpts.
+From NV Require Import Model.Layout Model.Hull Gen.OperationsInternal Proofs.GenTieFindCtrlpts.
+From NV Require Import Model.InsertKnot Gen.UtilitiesB Proofs.GenTieCheckParams.
+From NV Require Import Model.Fit Gen.PreludeExt2 Gen.Fitting Gen.FittingB Proofs.GenTieFit Proofs.GenTieFitB.
+From NV Require Import Proofs.GenTieFitSurf.
+
+From NV Require Import Gen.PreludeExt2 Gen.LinalgB Proofs.GenTieLinAlgB.
+
+(* [G] linalg.vector_generate (normalize = False; True needs a square root): ALL inputs *)
+Theorem C16_gen_vector_generate_R : forall (s e : list R),
+  LinalgB.vector_generate__normalize_false Rops s e = res_to_gres (fun x => x) ValueError IndexError (LinAlg.vector_generate Rops s e).
+Proof. exact vector_generate_tie_R. Qed.
+Print Assumptions C16_gen_vector_generate_R.
+Theorem C16_gen_vector_generate_Q : forall (s e : list Q),
+  LinalgB.vector_generate__normalize_false Qops s e = res_to_gres (fun x => x) ValueError IndexError (LinAlg.vector_generate Qops s e).
+Proof. exact vector_generate_tie_Q. Qed.
+Print Assumptions C16_gen_vector_generate_Q.
+
+(* [G] linalg.point_translate: ALL inputs *)
+Theorem C16_gen_point_translate_R : forall (p v : list R),
+  LinalgB.point_translate Rops p v = res_to_gres (fun x => x) ValueError IndexError (LinAlg.point_translate Rops p v).
+Proof. exact point_translate_tie_R. Qed.
+Print Assumptions C16_gen_point_translate_R.
+Theorem C16_gen_point_translate_Q : forall (p v : list Q),
+  LinalgB.point_translate Qops p v = res_to_gres (fun x => x) ValueError IndexError (LinAlg.point_translate Qops p v).
+Proof. exact point_translate_tie_Q. Qed.
+Print Assumptions C16_gen_point_translate_Q.
+
+(* [G] linalg.point_mid: ALL inputs; the model's `half` is the literal 0.5 = olit K 1 2 *)
+Theorem C16_gen_point_mid_R : forall (a b : list R),
+  LinalgB.point_mid Rops a b = res_to_gres (fun x => x) ValueError IndexError (LinAlg.point_mid Rops (olit Rops 1 2) a b).
+Proof. exact point_mid_tie_R. Qed.
+Print Assumptions C16_gen_point_mid_R.
+Theorem C16_gen_point_mid_Q : forall (a b : list Q),
+  LinalgB.point_mid Qops a b = res_to_gres (fun x => x) ValueError IndexError (LinAlg.point_mid Qops (olit Qops 1 2) a b).
+Proof. exact point_mid_tie_Q. Qed.
+Print Assumptions C16_gen_point_mid_Q.
+
+(* [G] linalg.vector_is_zero: ALL inputs, any tolerance (the default is 10e-8) *)
+Theorem C16_gen_vector_is_zero_R : forall (v : list R) (tol : R),
+  LinalgB.vector_is_zero Rops v tol = GOk (LinAlg.vector_is_zero Rops tol v).
+Proof. exact vector_is_zero_tie_R. Qed.
+Print Assumptions C16_gen_vector_is_zero_R.
+Theorem C16_gen_vector_is_zero_Q : forall (v : list Q) (tol : Q),
+  LinalgB.vector_is_zero Qops v tol = GOk (LinAlg.vector_is_zero Qops tol v).
+Proof. exact vector_is_zero_tie_Q. Qed.
+Print Assumptions C16_gen_vector_is_zero_Q.
+
+(* [G] linalg.vector_mean( *args ): the tuple of the vectors is the list vs; ALL inputs (no vector: IndexError <-> Crash) *)
+Theorem C16_gen_vector_mean_R : forall (vs : list (list R)),
+  LinalgB.vector_mean Rops vs = res_to_gres (fun x => x) ValueError IndexError (LinAlg.vector_mean Rops vs).
+Proof. exact vector_mean_tie_R. Qed.
+Print Assumptions C16_gen_vector_mean_R.
+Theorem C16_gen_vector_mean_Q : forall (vs : list (list Q)),
+  LinalgB.vector_mean Qops vs = res_to_gres (fun x => x) ValueError IndexError (LinAlg.vector_mean Qops vs).
+Proof. exact vector_mean_tie_Q. Qed.
+Print Assumptions C16_gen_vector_mean_Q.
+
+(* [G] linalg.matrix_scalar; wf: a first row, no row shorter than the first.  The EMPTY matrix is a model-vs-source mismatch (Python returns [], the model Crash: Example matrix_scalar_empty_mismatch) *)
+Theorem C16_gen_matrix_scalar_R : forall (m : list (list R)) (s : R),
+  m <> [] -> (forall r, In r m -> length (hd [] m) <= length r) ->
+  LinalgB.matrix_scalar Rops m s = res_to_gres (fun x => x) ValueError IndexError (LinAlg.matrix_scalar Rops m s).
+Proof. exact matrix_scalar_tie_R. Qed.
+Print Assumptions C16_gen_matrix_scalar_R.
+Theorem C16_gen_matrix_scalar_Q : forall (m : list (list Q)) (s : Q),
+  m <> [] -> (forall r, In r m -> length (hd [] m) <= length r) ->
+  LinalgB.matrix_scalar Qops m s = res_to_gres (fun x => x) ValueError IndexError (LinAlg.matrix_scalar Qops m s).
+Proof. exact matrix_scalar_tie_Q. Qed.
+Print Assumptions C16_gen_matrix_scalar_Q.
+Example C16_gen_leftovers_nonvacuous :
+  LinalgB.point_mid Qops [1; 2; 3]%Q [3; 6; 4]%Q = GOk [2; 4; 7 # 2]%Q
+  /\ LinAlg.point_mid Qops (olit Qops 1 2) [1; 2; 3]%Q [3; 6; 4]%Q = Ok [2; 4; 7 # 2]%Q
+  /\ LinalgB.matrix_scalar Qops [] 2%Q = GOk [] /\ LinAlg.matrix_scalar Qops [] 2%Q = Crash.
+Proof. split; [|split; [|split]]; vm_compute; reflexivity. Qed.
+
+
+
+From NV Require Import Model.Geom2D Proofs.GenTieLinAlgSqrt.
+
+(* [G] linalg.vector_magnitude: ALL inputs *)
+Theorem C16_gen_vector_magnitude_R : forall (v : list R) (py_sqrt : R -> gres R),
+  LinalgB.vector_magnitude Rops v py_sqrt = py_sqrt (LinAlg.vector_norm2 Rops v).
+Proof. exact vector_magnitude_tie_R. Qed.
+Print Assumptions C16_gen_vector_magnitude_R.
+Theorem C16_gen_vector_magnitude_Q : forall (v : list Q) (py_sqrt : Q -> gres Q),
+  LinalgB.vector_magnitude Qops v py_sqrt = py_sqrt (LinAlg.vector_norm2 Qops v).
+Proof. exact vector_magnitude_tie_Q. Qed.
+Print Assumptions C16_gen_vector_magnitude_Q.
+
+(* [G] linalg.vector_normalize at Rops: the unit vector; ValueError (empty or zero vector) <-> Rejected; the rounding to `decimals` is the identity *)
+Theorem C16_gen_vector_normalize_R_sqrt : forall (v : list R) (decimals : Z),
+  LinalgB.vector_normalize Rops v decimals (fun x => GOk (sqrt x)) =
+  match LinAlg.vector_normalize Rops v with
+  | Ok (v', n2) => GOk (map (fun x => (x / sqrt n2)%R) v')
+  | _ => GErr ValueError
+  end.
+Proof. exact vector_normalize_tie_R_sqrt. Qed.
+Print Assumptions C16_gen_vector_normalize_R_sqrt.
+(* [G] ... and for any scalar instance: every total py_sqrt (sq = its value) with 0 < sq x <-> 0 < x at x = |v|^2 *)
+Theorem C16_gen_vector_normalize_Q : forall (v : list Q) (decimals : Z) (py_sqrt : Q -> gres Q) (sq : Q -> Q),
+  (forall x, py_sqrt x = GOk (sq x)) ->
+  oltb Qops (o0 Qops) (sq (LinAlg.vector_norm2 Qops v)) = oltb Qops (o0 Qops) (LinAlg.vector_norm2 Qops v) ->
+  LinalgB.vector_normalize Qops v decimals py_sqrt =
+  match LinAlg.vector_normalize Qops v with
+  | Ok (v', n2) => GOk (map (fun x => odiv Qops x (sq n2)) v')
+  | _ => GErr ValueError
+  end.
+Proof. exact vector_normalize_tie_Q. Qed.
+Print Assumptions C16_gen_vector_normalize_Q.
+
